@@ -8,6 +8,7 @@ mod rng;
 mod util;
 mod eng_link;
 mod eng_transport;
+mod eng_parse;
 mod eng_convert;
 mod eng_outstation;
 mod mon_outstation;
@@ -31,6 +32,7 @@ fn main() {
                 "link" => eng_link::gen(thorough, seed, &mut out),
                 "transport" => eng_transport::gen_transport(thorough, seed, &mut out),
                 "linkaddr" => eng_transport::gen_linkaddr(thorough, seed, &mut out),
+                "parse" => eng_parse::gen(thorough, seed, &mut out),
                 "convert" => eng_convert::gen(thorough, seed, &mut out),
                 "outstation" => gen_outstation::gen(thorough, seed, &mut out, gen_outstation::GenCfg { with_db: false }),
                 _ => {
@@ -48,6 +50,7 @@ fn main() {
             match engine {
                 "link" => eng_link::run(&ops, &mut out, &mut mon),
                 "transport" | "linkaddr" => eng_transport::run(&ops, &mut out, &mut mon),
+                "parse" => eng_parse::run(&ops, &mut out, &mut mon),
                 "convert" => eng_convert::run(&ops, &mut out, &mut mon),
                 "outstation" => eng_outstation::run(&ops, &mut out, &mut mon),
                 _ => {
